@@ -712,11 +712,22 @@ def entry_contract_client(case):
 
 def isolation(case):
     """C17: a request by a client of collection A leaves every document of the other collections
-    unchanged; a foreign request is refused."""
+    unchanged; a foreign request is refused; resetting a collection removes exactly that collection's
+    datatypes, operations, snapshots and CLIENTS: a client purged by a reset is not served any more."""
     reg = {}
     for ln, _ in case:
         if ln.get("k") == "client":
             reg[ln["c"]] = ln.get("reg", ln["col"])
+    # clients purged by a reset of their collection (the harness never registers them again)
+    purged, seen = set(), {}
+    for idx, (ln, _) in enumerate(case):
+        if ln.get("k") == "client" and ln.get("obs", {}).get("rpc", 0) == 0:
+            seen[ln["c"]] = ln.get("reg", ln["col"])
+        elif ln.get("k") == "reset" and ln.get("obs", {}).get("rpc", 0) == 0:
+            purged |= {c for c, col in seen.items() if col == ln.get("name")}
+        elif ln.get("k") == "sync" and ln.get("c") in purged and "rpc" in ln.get("obs", {}):
+            if ln["obs"]["rpc"] == 0 and not (ln.get("mut") or {}).get("cuid"):
+                return [dict(step=idx, what="purged-client-still-served", detail=dict(cmd=strip(ln), collection=seen.get(ln["c"])))]
     for idx, ln, prev, after in _adjacent(case):
         io = ln.get("obs", {})
         colname = (ln.get("mut") or {}).get("col") or reg.get(ln["c"])
